@@ -137,9 +137,16 @@ func (t *Target) HasOutputChecksOnly() bool {
 }
 
 func PrintSortedLabels(nodes []BuildNode) {
-	labels := make([]label.TargetLabel, len(nodes))
-	for i, target := range nodes {
-		labels[i] = target.GetLabel()
+	// Every label once: a node can be in the list several times, e.g. when a target
+	// declares the same dependency twice (":lib" and "//pkg:lib")
+	seen := make(map[label.TargetLabel]bool, len(nodes))
+	labels := make([]label.TargetLabel, 0, len(nodes))
+	for _, target := range nodes {
+		if seen[target.GetLabel()] {
+			continue
+		}
+		seen[target.GetLabel()] = true
+		labels = append(labels, target.GetLabel())
 	}
 	label.PrintSorted(labels)
 }
